@@ -167,6 +167,8 @@ var ledgerSpecs = []ledgerSpec{
 			{"drop-then-repropose+truncate", ledger.Cfg{Nodes: []string{"G"}, Supply: sp(10, 0), Menu: []ledger.TxSpec{t1, t3, t7}, Crafted: []ledger.TxSpec{mx}, Truncate: true, Props: only("C03")}, d, 0, 0},
 			// proposals whose caller goes away (context cancelled from the k-th poll on) between ordinary ones, incl. over an overdrawing tip
 			{"cancelled-proposals", ledger.Cfg{Nodes: []string{"G"}, Supply: sp(10, 0), Menu: []ledger.TxSpec{t1, t3, t7, mx}, ProposeCancel: []int{0, 1, 2}, Props: only("C03")}, d - 1, 0, 0},
+			// gossip deliveries whose caller goes away, followed by the ordinary delivery of the same vertex
+			{"cancelled-deliveries", ledger.Cfg{Nodes: []string{"G", "N1"}, Supply: sp(10, 0), Menu: []ledger.TxSpec{t1, t3, t7}, MaxProposeNodes: 1, DeliverCancel: []int{0, 1, 2}, Tick: true, Props: only("C03")}, d - 1, 0, 0},
 			// data-only (contract) vertices in the truncated region, re-offered afterwards
 			{"contracts+truncate", ledger.Cfg{Nodes: []string{"G"}, Supply: sp(10, 0), Menu: []ledger.TxSpec{t1, {Label: "cx", From: "R", To: "B", Data: "d"}, {Label: "cy", From: "A", To: "B", Data: "d"}, cfl2("c7")}, Truncate: true,
 				Prefix: []string{"P:0:c1", "P:0:p1"}, Props: only("C03")}, d, 0, 0},
@@ -233,6 +235,8 @@ var ledgerSpecs = []ledgerSpec{
 			{"unequal-branches-merged", ledger.Cfg{Nodes: []string{"G", "N1"}, Supply: sp(10, 0), Menu: []ledger.TxSpec{t1, t3, t7, tx("t7c", "R", "A", 0, 3)}, MaxProposeNodes: 1, Props: only("C09")}, d, 0, 0},
 			// proposals whose caller goes away (context cancelled from the k-th poll on): what they create must still reference valid tips only
 			{"cancelled-proposals", ledger.Cfg{Nodes: []string{"G"}, Supply: sp(10, 0), Menu: []ledger.TxSpec{t1, t3, t7, mx}, ProposeCancel: []int{0, 1, 2}, Props: only("C09")}, d, 0, 0},
+			// gossip deliveries whose caller goes away, followed by the ordinary delivery of the same vertex
+			{"cancelled-deliveries", ledger.Cfg{Nodes: []string{"G", "N1"}, Supply: sp(10, 0), Menu: []ledger.TxSpec{t1, t3, t7}, MaxProposeNodes: 1, DeliverCancel: []int{0, 1, 2}, Tick: true, Props: only("C09")}, d, 0, 0},
 			// data-only vertices and transfers mixed, truncated from a non-initial history
 			{"contracts+transfers+truncate", ledger.Cfg{Nodes: []string{"G"}, Supply: sp(10, 0), Menu: []ledger.TxSpec{t1, t3, {Label: "cx", From: "R", To: "B", Data: "d"}, {Label: "cy", From: "A", To: "B", Data: "d"}},
 				Truncate: true, Prefix: []string{"P:0:c1", "P:0:p1", "P:0:c2"}, Props: only("C09")}, d, 0, 0},
@@ -293,6 +297,8 @@ var ledgerSpecs = []ledgerSpec{
 			{"siblings+stranger-any-order", ledger.Cfg{Nodes: []string{"G", "N1"}, Supply: sp(10, 0), Menu: nil, Hidden: []ledger.TxSpec{sib("q"), sib("c1"), sib("c2"), sib("x")}, Tick: true, Prefix: siblings, Props: only("C13")}, d + 4, 0, 0},
 			// time passes while a vertex is parked (the parent arrives minutes later): nothing expires with time
 			{"chain3-any-order+time-passes", ledger.Cfg{Nodes: []string{"G", "N1"}, Supply: sp(10, 0), Menu: nil, Tick: true, Wait: true, Prefix: chain, Props: only("C13")}, d, 0, 0},
+			// deliveries whose caller goes away (context cancelled from the k-th poll on) before the ordinary delivery of the same vertex
+			{"chain3-any-order+cancelled-deliveries", ledger.Cfg{Nodes: []string{"G", "N1"}, Supply: sp(10, 0), Menu: nil, Tick: true, DeliverCancel: []int{0, 1}, Prefix: chain, Props: only("C13")}, d, 0, 0},
 			{"chain3+local-proposal", ledger.Cfg{Nodes: []string{"G", "N1"}, Supply: sp(10, 0), Menu: []ledger.TxSpec{tx("loc", "R", "B", 1, 0)}, MaxProposeNodes: 1, Tick: true, Prefix: chain, Props: only("C13")}, d - 1, 0, 0},
 		},
 			ledgerRun{"chain4-any-order+dup", ledger.Cfg{Nodes: []string{"G", "N1"}, Supply: sp(10, 0), Menu: nil, Tick: true, Dup: true, Prefix: []string{"P:0:p1", "P:0:p2", "P:0:p3", "P:0:p4"}, Props: only("C13")}, 12, 0, 0},
